@@ -112,24 +112,44 @@ def run(ctx):
                              if cls in ("tokens", "legacy", "chars") and len(x) > 10 else None)
     except AbortWorkload as e:
         ctx.count("workload_aborted_after_step_bound_violations")
+    atheris_campaign(ctx, "decoder", runs=20000 if quick else 300000, T=T)
     T.close()
-    atheris_campaign(ctx, "decoder", runs=20000 if quick else 300000)
     for k, v in MON.counts.items():
         ctx.count(k, v)
 
 
-def atheris_campaign(ctx, which, runs):
-    """M10: coverage-guided byte mutation for a fixed execution count."""
-    out = os.path.join(os.environ.get("VMON_RUNDIR", env.WORK), "atheris-%s-%d.jsonl" % (which, ctx.shard))
+def atheris_campaign(ctx, which, runs, T=None):
+    """M10: coverage-guided byte mutation for a fixed execution count.  The fuzzing process has no step counter; an
+    input on which it stops making progress is handed back by libFuzzer (-timeout, artifact file) and judged here
+    under the logical step bound, never by the wall clock."""
+    if T is not None and T.steplimit_hits >= 4:
+        ctx.count("atheris.skipped_after_step_bound_violations")
+        return
+    rundir = os.environ.get("VMON_RUNDIR", env.WORK)
+    out = os.path.join(rundir, "atheris-%s-%d.jsonl" % (which, ctx.shard))
+    prefix = os.path.join(rundir, "atheris-%s-%d-artifact-" % (which, ctx.shard))
     cmd = [env.PYTHON, "-m", "vmon.fuzz_target", "-runs=%d" % runs, "-max_len=300", "-seed=%d" % (ctx.seed * 100 + ctx.shard + 1),
-           "-verbosity=0", "-print_final_stats=0"]
+           "-verbosity=0", "-print_final_stats=0", "-timeout=120", "-artifact_prefix=" + prefix]
     e = env.child_env(hashseed=ctx.shard % 5, extra={"FZ_TARGET": which, "FZ_OUT": out})
     try:
         p = subprocess.run(cmd, env=e, capture_output=True, text=True, timeout=3000, cwd=env.ROOT)
     except subprocess.TimeoutExpired:
         ctx.inconclusive_reason("atheris campaign timed out")
         return
+    import glob
     import json
+    arts = sorted(glob.glob(prefix + "*"))
+    for a in arts[:5]:
+        import atheris
+        fdp = atheris.FuzzedDataProvider(open(a, "rb").read())
+        fl = fdp.ConsumeIntInRange(0, 3)
+        s = fdp.ConsumeUnicodeNoSurrogates(4096)
+        ctx.count("atheris.artifacts_rejudged")
+        if T is not None:
+            try:
+                T.call(s, (bool(fl & 1), bool(fl & 2)), "atheris-artifact")
+            except AbortWorkload:
+                break
     n_exec = 0
     if os.path.exists(out + ".stats"):
         rec = json.load(open(out + ".stats"))
@@ -142,7 +162,7 @@ def atheris_campaign(ctx, which, runs):
             rec = json.loads(line)
             if rec.get("kind") == "escape":
                 ctx.finding("escape:%s" % rec["mech"], {"input": rec["input"], "flags": rec["flags"], "class": "atheris"}, rec["mech"])
-    if n_exec == 0:
+    if n_exec == 0 and not arts:
         ctx.inconclusive_reason("atheris campaign produced no executions: %s" % (p.stderr[-300:],))
 
 
